@@ -1,0 +1,14 @@
+//go:build verif
+
+package client
+
+// VerifHook, when set, is called at named points of the client so that a
+// verification harness can order goroutines deterministically. It is only
+// compiled with the "verif" build tag.
+var VerifHook func(point string)
+
+func verifPoint(point string) {
+	if h := VerifHook; h != nil {
+		h(point)
+	}
+}
